@@ -296,4 +296,8 @@ H("C13", "m2", _RL, "quick", "C13.g preserved key-frame data: after relocate_bon
   ["c13g_bone_relocation_pre_wotlk", "c13g_bone_relocation_wotlk"], ["model::relocate_bone_track_offsets (relocate_or_zero_track)"],
   "three tracks: count and offset of time stamps, values and (pre-WotLK) ranges all symbolic; relocation map of 1..=3 entries, keys and values symbolic",
   "one bone, map of <= 3 entries", stubs=[FMT, _VM13], timeout=900)
+H("C13", "m2", _RL, "thorough", "C13.g the same for cameras (3 animation blocks) and lights (5): every non-empty array of a block is moved to its mapped offset with its count, or the block is emptied",
+  ["c13g_camera_relocation", "c13g_light_relocation"], ["model::relocate_camera_animation_offsets", "model::relocate_light_animation_offsets"],
+  "per block: count and offset of interpolation ranges, time stamps and values symbolic; relocation map of 1..=3 entries symbolic",
+  "one camera / one light, map of <= 3 entries", stubs=[FMT, _VM13], timeout=1800)
 H("C13", "m2", _RL, "quick", "canary", ["c13g_canary"], ["model::relocate_bone_track_offsets"], "vacuity twin", "-", expect="canary", stubs=[FMT, _VM13])
